@@ -391,9 +391,40 @@ class Ctx:
                     done[fn] = int(s.split()[1])
             r = run_tlc(wd, module + ".tla", module + ".cfg", workers=1, env={"TRACE_FILE": fn},
                         line_cb=cb, xmx="3g", timeout=3000)
+            if (r["errors"] or not r["finished"]) and module == "TraceCodec":
+                # TLC could not evaluate the comparison (an observation of an unexpected type): let it compute the expectations
+                # only, from a copy of the shard without the observations, and compare here
+                r = fallback(fn, n) or r
             if r["errors"] or not r["finished"]:
                 errors.append((fn, r["errors"][:12], r["cmd"]))
             results.append(r)
+
+        def fallback(fn, n):
+            evs = [json.loads(ln) for ln in open(fn)]
+            fn2 = fn + ".exp"
+            with open(fn2, "w") as f:
+                for e in evs:
+                    f.write(canon({"id": e["id"], "op": e["op"], "a": e["a"]}) + "\n")
+            exps = {}
+
+            def cb2(line):
+                s = tlc_string(line)
+                if s.startswith("EXP "):
+                    _, i, js = s.split(" ", 2)
+                    exps[int(i)] = json.loads(js)
+                elif s.startswith("DONE "):
+                    done[fn] = int(s.split()[1])
+            r2 = run_tlc(wd, module + ".tla", module + ".cfg", workers=1, env={"TRACE_FILE": fn2, "VP_MODE": "exp"},
+                         line_cb=cb2, xmx="3g", timeout=3000)
+            if r2["errors"] or not r2["finished"] or len(exps) != n:
+                return None
+            for k in [k for k in bad if any(e["id"] == k for e in evs)]:
+                del bad[k]
+            for e in evs:
+                if not matches(exps[e["id"]], e["o"]):
+                    bad[e["id"]] = exps[e["id"]]
+            self.note(f"{label}: TLC could not evaluate the comparison in one shard; expectations computed by TLC, compared by the harness")
+            return r2
 
         total = 0
         futures = []
